@@ -709,7 +709,10 @@ func init() {
 		if tier == "thorough" {
 			gp, gn = 3, 3
 		}
-		js = append(js, mk(sprintf("c17.striped.grow.producers%d.pre%d", gn, gp), lossyPkg, "ZZ_C17_StripedGrow", map[string]int{"producers": gn},
+		js = append(js, mk(sprintf("c17.striped.grow.producers%d.pre%d", gn, gp), lossyPkg, "ZZ_C17_StripedGrow", map[string]int{"producers": gn, "stripe1": 0},
+			func(b *Bounds) { b.Unwind = 20; b.Preempt = gp; b.Race = true; b.MaxPaths = 20000000; b.MaxWallS = 3000 }))
+		// the second stripe holds a drained (present, empty) ring when the table is doubled
+		js = append(js, mk(sprintf("c17.striped.grow.drained_stripe.producers%d.pre%d", gn, gp), lossyPkg, "ZZ_C17_StripedGrow", map[string]int{"producers": gn, "stripe1": 1},
 			func(b *Bounds) { b.Unwind = 20; b.Preempt = gp; b.Race = true; b.MaxPaths = 20000000; b.MaxWallS = 3000 }))
 		for _, j := range js {
 			j.Prefer = "bits"
